@@ -267,6 +267,29 @@ def long_cases(draw, tier):
     return {'frames': T, 'plans': plans}
 
 
+@st.composite
+def wide_long_cases(draw, tier):
+    """more than 2^20 (frame, atom) entries: 16-20 atoms x 70 000 - 150 000 frames (size-dependent code paths such as block-wise processing)"""
+    T = draw(st.sampled_from([70000, 110000] if tier == 'quick' else [70000, 110000, 150000, 230000]))
+    n_atoms = draw(st.sampled_from([16, 20]))
+    base = []
+    for _ in range(3):
+        plan, last = [], None
+        for _k in range(draw(st.integers(3, 7))):
+            site = draw(st.sampled_from([-1, 0, 1, 2, -1]))
+            if site == last:
+                site = (site + 2) % 3 if site >= 0 else 0
+            last = site
+            plan.append([site, draw(st.sampled_from(['deep', 'shell'])), draw(st.sampled_from([1, 50, 700, 2500, 9000, 30011]))])
+        base.append(plan)
+    plans = []
+    for a in range(n_atoms):
+        pl = base[a % 3]
+        r = a % len(pl)
+        plans.append(pl[r:] + pl[:r])
+    return {'frames': T, 'plans': plans}
+
+
 E1 = Enum(1, 3, {'quick': 5, 'thorough': 7})
 E2 = Enum(2, 2, {'quick': 3, 'thorough': 4})
 
@@ -283,4 +306,7 @@ SUBS = [
     Sub(name='long-pipeline', kind='hyp', run=run_long_events, strategy=long_cases,
         rule='trajectories of 33 000 - 70 000 (140 000) frames through Trajectory.transitions_between_sites: planned (outer, inner) histories with dwell 1-9000 realised as coordinates; states, event table and previous/next views vs the models (index and time widths beyond 2^15 frames)',
         n={'quick': 2, 'thorough': 12}, shards={'quick': 6, 'thorough': 16}),
+    Sub(name='wide-long-pipeline', kind='hyp', run=run_long_events, strategy=wide_long_cases,
+        rule='16-20 atoms x 70 000 - 110 000 (230 000) frames, i.e. 1.1 - 2.2 (4.6) million (frame, atom) entries, through transitions_between_sites: states, event table and previous/next views vs the models (code paths that depend on the array size)',
+        n={'quick': 2, 'thorough': 3}, shards={'quick': 4, 'thorough': 16}),
 ]
